@@ -1434,6 +1434,8 @@ def leaves_of(x, out=None):
             leaves_of(y, out)
     elif isinstance(x, Poly):
         for a_ in x.atoms():
+            if isinstance(a_, str):
+                out.add(a_)         # a scalar parameter used inside a term (e.g. an index)
             leaves_of(a_, out)
     elif isinstance(x, str):
         pass
@@ -1970,3 +1972,69 @@ def lax_identity_map_operation(c, a, st, v):
 def dyn_map_object(c, a, st, v):
     x = a["a"].f["0"].t
     c.eq(st, "DynFunctor::map_object: one block per label", t_len(ic_sizes(v)), t_len(x))
+
+
+# ------------------------------------------------------------------ VECSPEC (C07): Vec backend vs the array contract
+
+def vec_conformance(sc, res):
+    import vecspec
+    c = Ctx(sc, res)
+    ref = res["vec_ref"]
+    name = res["fn"]["name"]
+    if "error" in ref:
+        c.ob("ENS", f"{name}: contract reference", "the contract's transfer function applies to the arguments: " + ref["error"],
+             False, res["st0"])
+        return
+    for (st, v, ctl) in res["outs"]:
+        if ctl is not None:
+            continue
+        matched = False
+        shown = []
+        for r in ref["refs"]:
+            extra = r["st"].lin.facts[ref["n_facts"]:]
+            if not all((st.eq(p, 0) if k == "eq" else st.ge(p, 0) if k == "ge" else st.ne(p, 0)) for (k, p) in extra
+                       if not _assumption_fact(res["st0"], k, p)):
+                continue
+            ok = vecspec.same_value(st, v, r["ret"])
+            for root in ref["mut_roots"]:
+                ok = ok and vecspec.same_value(st, st.env[root], r["posts"][root])
+            shown.append((r, ok))
+            if ok:
+                matched = True
+        want = "; ".join("ret " + vecspec.show(r["ret"]) + "".join(" / *self " + vecspec.show(r["posts"][x]) for x in ref["mut_roots"])
+                         for (r, ok) in shown) or "no contract outcome applies on this path"
+        got = "ret " + vecspec.show(v) + "".join(" / *self " + vecspec.show(st.env[x]) for x in ref["mut_roots"])
+        terms = tuple(_seq_terms(v)) + tuple(t for x in ref["mut_roots"] for t in _seq_terms(st.env[x]))
+        unknown = _has_top(v) or any(_has_top(st.env[x]) for x in ref["mut_roots"])
+        actual = (terms + ((("v", "top:unknown"),) if unknown else ())) or None
+        c.ob("ENS", f"{name}: the Vec backend returns what the array contract prescribes (scalar definition)",
+             f"got {got}  ≡  contract {want}", matched, st, actual=actual)
+
+
+def _assumption_fact(st0, k, p):
+    """Facts the reference added to the shared entry state are assumptions, already present there."""
+    return (k, p) in st0.lin.facts
+
+
+def _seq_terms(v):
+    if isinstance(v, VSeq):
+        return [v.t]
+    if isinstance(v, VTup):
+        return [t for x in v.items for t in _seq_terms(x)]
+    if isinstance(v, VEnum):
+        return [t for x in v.payload for t in _seq_terms(x)]
+    if isinstance(v, VRec):
+        return [t for x in v.f.values() for t in _seq_terms(x)]
+    return []
+
+
+def _has_top(v):
+    if isinstance(v, VTop):
+        return True
+    if isinstance(v, VTup):
+        return any(_has_top(x) for x in v.items)
+    if isinstance(v, VEnum):
+        return any(_has_top(x) for x in v.payload)
+    if isinstance(v, VRec):
+        return any(_has_top(x) for x in v.f.values())
+    return False
